@@ -4,6 +4,7 @@ package main
 
 import (
 	"fmt"
+	"sync"
 	"go/token"
 	"go/types"
 	"os"
@@ -38,6 +39,8 @@ type World struct {
 	wkCache   map[*ssa.Function]map[string]bool
 	allFuncs  map[*ssa.Function]bool
 	entryStates []int64 // scanner entry states (E-SCAN), computed on demand
+	mu          sync.Mutex // guards the lazily filled tables below when regions are generated in parallel
+	idMu        sync.Mutex
 	restStates  []int64 // scanner states without an end-of-input action
 }
 
@@ -221,6 +224,8 @@ func (w *World) lookupFunc(pkgPath, key string) *ssa.Function {
 }
 
 func (w *World) typeID(t types.Type) int {
+	w.idMu.Lock()
+	defer w.idMu.Unlock()
 	k := t.String()
 	if id, ok := w.typeIDs[k]; ok {
 		return id
@@ -232,6 +237,8 @@ func (w *World) typeID(t types.Type) int {
 }
 
 func (w *World) strLit(s string) int {
+	w.idMu.Lock()
+	defer w.idMu.Unlock()
 	if id, ok := w.strLits[s]; ok {
 		return id
 	}
